@@ -54,7 +54,7 @@ Proof.
           - discriminate H.
           - exact (G _ H).
           - destruct (parse_u64 (snd h)); [exact (G _ H)|discriminate H]. }
-        destruct (seqb (fst h) n_tenc && seqb (snd h) v_chunked); exact (G _ H).
+        destruct (seqb (fst h) n_tenc && is_chunked (snd h)); exact (G _ H).
 Qed.
 
 Lemma enc_headers_fields hs : enc_headers hs = enc_fields hs ++ crlf.
@@ -66,7 +66,7 @@ Proof. unfold enc_fields. apply flat_map_app. Qed.
 (* the bytes written are the plain head of the filtered field list *)
 Lemma ser_request_is_enc method target minor mx authority hs bytes fr :
   ser_request method target minor mx authority hs = Some (bytes, fr) ->
-  bytes = enc_request method (if seqb method n_options then [42] else target) minor None (fwd_fields authority hs).
+  bytes = enc_request method target minor None (fwd_fields authority hs).
 Proof.
   unfold ser_request. intros H.
   destruct (ser_fields authority hs false None) as [[[b s] f]|] eqn:E; [|discriminate H].
@@ -98,12 +98,10 @@ Lemma forwarded_request_round_trip_proof method target minor mx authority hs byt
   minor < 10 -> no_byte 32 method = true -> no_cr method = true -> no_byte 32 target = true -> no_cr target = true ->
   no_cr authority = true -> forallb hdr_ok hs = true ->
   read_request (S (length (fwd_fields authority hs))) (bytes ++ rest) =
-  Some ({| rq_method := method; rq_target := if seqb method n_options then [42] else target; rq_minor := minor;
+  Some ({| rq_method := method; rq_target := target; rq_minor := minor;
            rq_headers := as_read (fwd_fields authority hs) |}, rest).
 Proof.
   intros H Hm Hms Hmc Hts Htc Ha Hh. rewrite (ser_request_is_enc _ _ _ _ _ _ _ _ H).
   apply request_round_trip_proof; try assumption.
-  - destruct (seqb method n_options); [reflexivity|exact Hts].
-  - destruct (seqb method n_options); [reflexivity|exact Htc].
   - apply fwd_fields_ok; assumption.
 Qed.
